@@ -37,6 +37,7 @@ type xrefStmSpec struct {
 	PadTo    int     // pad the decoded entry data with zero rows up to at least this many bytes (0: none)
 	Size     *int64  // forced /Size
 	Index    []int64 // forced /Index
+	NoIndex  bool    // never write /Index (the rows are then numbered from 0)
 	W        []int64 // forced /W (dictionary only; rows keep their true widths unless WRows)
 	WRows    bool    // lay the rows out with W (needs len(W)==3, small values)
 	Trail    int     // filler bytes added to the input of the LAST decode stage (see addFiller)
@@ -372,7 +373,7 @@ func (d *mdoc) write() ([]byte, *mlayout, error) {
 			index = append(index, pdfgen.Int(v))
 		}
 		dict.Set("Index", index)
-	} else if !(len(index) == 2 && index[0] == pdfgen.Int(0)) || sz != int64(size) {
+	} else if !d.XS.NoIndex && (!(len(index) == 2 && index[0] == pdfgen.Int(0)) || sz != int64(size)) {
 		dict.Set("Index", index)
 	}
 	s := &mstream{Enc: enc, Filters: d.XS.Filters}
